@@ -53,9 +53,16 @@ def build(case, initialize=True):
     g = BasicDSG()
     for i in range(case['n']):
         g.add_node(b.node[i])
-    g.add_edges([(b.node[s], b.node[t]) for s, t in case.get('edges', [])])
-    for sc in case.get('sel', []):
-        b.node[sc['id']] = g.add_selection_choice('S%02d' % sc['id'], b.node[sc['origin']], [b.node[o] for o in sc['options']])
+    # insertion order of plain edges and selection choices: 'order' is a permutation seed (None = edges first)
+    steps = [('e', e) for e in case.get('edges', [])] + [('s', sc) for sc in case.get('sel', [])]
+    if case.get('order') is not None:
+        import random as _r
+        _r.Random(case['order']).shuffle(steps)
+    for kind, it in steps:
+        if kind == 'e':
+            g.add_edges([(b.node[it[0]], b.node[it[1]])])
+        else:
+            b.node[it['id']] = g.add_selection_choice('S%02d' % it['id'], b.node[it['origin']], [b.node[o] for o in it['options']])
     for cc in case.get('conn', []):
         def ent(e):
             return b.node[e] if isinstance(e, int) else (b.node[e[0]], [b.node[m] for m in e[1]])
@@ -69,6 +76,13 @@ def build(case, initialize=True):
     # option order of every selection choice as the code sorts it (before any pruning)
     b.opt_order = {sc['id']: [b.ident[o] for o in g.get_option_nodes(b.node[sc['id']])] for sc in case.get('sel', [])}
     if initialize:
+        if case.get('prederive'):
+            # derive once from another start set on the SAME design-space object and discard the result: a library that
+            # treats graphs as values is unaffected
+            try:
+                g.set_start_nodes({b.node[s] for s in case['prederive']})
+            except Exception:
+                pass
         g = g.set_start_nodes({b.node[s] for s in case['start']})
         b.cons_opts = []
         for con in case.get('cons', []):
@@ -142,7 +156,7 @@ def _default_order(options):
 
 
 # ---------------------------------------------------------------------------------------------- generators
-def gen_sel(rng, max_nodes=11, max_choices=4, max_opts=4, n_incompat=None, cons_prob=0.0, adversarial=False,
+def gen_sel(rng, max_nodes=12, max_choices=4, max_opts=4, n_incompat=None, cons_prob=0.0, adversarial=False,
             doomed_prob=0.0):
     """G-sel: mostly valid selection-choice graphs built top-down from the start nodes."""
     n = rng.randint(3, max_nodes)
@@ -150,6 +164,14 @@ def gen_sel(rng, max_nodes=11, max_choices=4, max_opts=4, n_incompat=None, cons_
     start = list(range(n_start))
     placed = list(start)             # plain nodes already attached (potentially reachable)
     unplaced = list(range(n_start, n))
+    # reserve nodes for a fan-out/fan-in diamond (hub -> 2..3 kids -> join [-> tail]) hung below a random node later
+    diamond = None
+    if rng.random() < 0.3 and len(unplaced) >= 6:
+        k = 3 if rng.random() < 0.6 else 2
+        tail = rng.random() < 0.5
+        take = k + 1 + (1 if tail else 0)
+        diamond = unplaced[-take:]
+        unplaced = unplaced[:-take]
     edges, sel = [], []
     next_id = n
     n_choices = rng.randint(1, max_choices)
@@ -188,11 +210,37 @@ def gen_sel(rng, max_nodes=11, max_choices=4, max_opts=4, n_incompat=None, cons_
             placed.append(t)
         if len(sel) >= n_choices and not unplaced:
             break
+    if diamond:
+        all_opts = [o for sc in sel for o in sc['options']]
+        hub = rng.choice(all_opts) if all_opts and rng.random() < 0.7 else rng.choice(placed)
+        kids = diamond[:3] if len(diamond) >= 5 or (len(diamond) == 4 and rng.random() < 0.5) else diamond[:2]
+        rest = diamond[len(kids):]
+        join = rest[0]
+        for kd in kids:
+            edges.append([hub, kd])
+            edges.append([kd, join])
+        for extra in rest[1:]:
+            edges.append([join, extra])
+        placed += diamond
+        # one kid is additionally derived by an option of another choice (so it may survive when the hub does not)
+        others = [o for sc in sel for o in sc['options'] if o != hub and hub not in sc['options']]
+        if others and rng.random() < 0.6:
+            edges.append([rng.choice(others), rng.choice(kids)])
     # extra derivation edges: DAG-ish and cycles
     for _ in range(rng.randint(0, 3)):
         s, t = rng.choice(placed), rng.choice(placed)
         if s != t and [s, t] not in edges:
             edges.append([s, t])
+    # joins: one node derived by several others (fan-out/fan-in diamonds)
+    if rng.random() < 0.3 and len(placed) >= 4:
+        hub = rng.choice(placed)
+        kids = rng.sample([p for p in placed if p != hub], min(len(placed) - 1, rng.randint(2, 3)))
+        tgt = rng.choice([p for p in placed if p != hub and p not in kids] or [kids[-1]])
+        for kd in kids:
+            if kd != tgt:
+                for e in ([hub, kd], [kd, tgt]):
+                    if e not in edges and e[0] != e[1]:
+                        edges.append(e)
     if n_incompat is None:
         n_incompat = rng.choice([0, 0, 1, 1, 2, 3])
     incompat = []
@@ -218,16 +266,79 @@ def gen_sel(rng, max_nodes=11, max_choices=4, max_opts=4, n_incompat=None, cons_
                     incompat.append([o, o2])
     cons = []
     if cons_prob and rng.random() < cons_prob and len(sel) >= 2:
-        k = rng.randint(2, min(3, len(sel)))
-        chosen = rng.sample(sel, k)
+        # prefer a group of choices with the same number of options (UNORDERED types demand it, LINKED is only
+        # documented for it); one case in ten keeps unequal counts
+        by_n = {}
+        for c in sel:
+            by_n.setdefault(len(set(c['options'])), []).append(c)
+        groups = [g for g in by_n.values() if len(g) >= 2]
+        if groups and rng.random() < 0.9:
+            grp = rng.choice(groups)
+            chosen = rng.sample(grp, rng.randint(2, min(3, len(grp))))
+        else:
+            chosen = rng.sample(sel, rng.randint(2, min(3, len(sel))))
         t = rng.choice(['linked', 'permutation', 'unordered', 'norepl'])
         cons.append({'type': t, 'choices': sorted(c['id'] for c in chosen)})
     case = {'n': n, 'edges': edges, 'sel': sel, 'start': start, 'incompat': incompat, 'cons': cons}
+    if rng.random() < 0.5:
+        case['order'] = rng.randrange(1 << 30)
+    if n_start == 2 and rng.random() < 0.5:
+        # the case is derived from one start node only; the same object is first derived from both
+        case['prederive'] = list(start)
+        case['start'] = [start[0]]
     if adversarial:
         for _ in range(rng.randint(1, 4)):
             s, t = rng.randrange(n), rng.randrange(n)
             if s != t and [s, t] not in edges:
                 edges.append([s, t])
+    return case
+
+
+def gen_diamond(rng):
+    """G-diamond: fan-out / fan-in derivations below option nodes, some of whose members have a second deriver"""
+    nid = [0]
+
+    def new():
+        nid[0] += 1
+        return nid[0]
+    edges, sel_raw = [], []
+    origins = []
+    for _ in range(rng.randint(2, 3)):
+        o = new()
+        edges.append([0, o])
+        origins.append(o)
+    all_opts = []
+    for org in origins:
+        opts = [new() for _ in range(rng.randint(2, 3))]
+        sel_raw.append((org, opts))
+        all_opts.append(opts)
+    for _ in range(rng.randint(1, 2)):
+        ci = rng.randrange(len(sel_raw))
+        hub = rng.choice(all_opts[ci])
+        kids = [new() for _ in range(rng.randint(2, 4))]
+        join = new()
+        for kd in kids:
+            edges.append([hub, kd])
+            edges.append([kd, join])
+        if rng.random() < 0.6:
+            edges.append([join, new()])
+        others = [o for cj, opts in enumerate(all_opts) if cj != ci for o in opts] + origins
+        for kd in kids:
+            if rng.random() < 0.35:
+                edges.append([rng.choice(others), kd])
+    for opts in all_opts:
+        for o in opts:
+            if rng.random() < 0.3:
+                edges.append([o, new()])
+    n = nid[0] + 1
+    sel = [{'id': n + k, 'origin': org, 'options': opts} for k, (org, opts) in enumerate(sel_raw)]
+    case = {'n': n, 'edges': edges, 'sel': sel, 'start': [0], 'incompat': [], 'cons': []}
+    if rng.random() < 0.3:
+        a, b = rng.sample(range(1, n), 2)
+        if not self_conflicting_option(dict(case, incompat=[[a, b]])):
+            case['incompat'] = [[a, b]]
+    if rng.random() < 0.5:
+        case['order'] = rng.randrange(1 << 30)
     return case
 
 
@@ -420,6 +531,40 @@ def option_derives_sibling(case):
     return False
 
 
+def linked_unequal(case):
+    """K12 guard: a LINKED constraint over choices with different numbers of options"""
+    n = {sc['id']: len(set(sc['options'])) for sc in case.get('sel', [])}
+    opts = {sc['id']: set(sc['options']) for sc in case.get('sel', [])}
+    inc_nodes = {x for p in case.get('incompat', []) for x in p}
+    for con in case.get('cons', []):
+        if con['type'] != 'linked':
+            continue
+        if len({n.get(c) for c in con['choices']}) > 1:
+            return True
+        # an option that takes part in an incompatibility constraint may be pruned before the constraint captures the
+        # option lists, which leaves unequal counts
+        if any(opts.get(c, set()) & inc_nodes for c in con['choices']):
+            return True
+    return False
+
+
+def constraint_not_all_permanent(case):
+    """K13 guard: a choice constraint whose choices are not all active before any choice is taken (hierarchical or
+    mutually exclusive placement)"""
+    if not case.get('cons'):
+        return False
+    W = py_closure(case, {})
+    return any(any(c not in W for c in con['choices']) for con in case['cons'])
+
+
+def norepl_all_permanent(case):
+    """K15 guard: an UNORDERED_NOREPL constraint whose choices are all initially active (up-front option removal)"""
+    if not case.get('cons'):
+        return False
+    W = py_closure(case, {})
+    return any(con['type'] == 'norepl' and all(c in W for c in con['choices']) for con in case['cons'])
+
+
 def guards(case):
     """ids of the known-finding classes this case falls into"""
     case = {k: v for k, v in case.items() if not k.startswith('_')}
@@ -436,6 +581,12 @@ def guards(case):
         out.add('K2')
     if option_derives_sibling(case):
         out.add('K11')
+    if linked_unequal(case):
+        out.add('K12')
+    if constraint_not_all_permanent(case):
+        out.add('K13')
+    if norepl_all_permanent(case):
+        out.add('K15')
     return out
 
 
